@@ -643,7 +643,7 @@ fn isolation(cx: &mut Ctx) {
         }
         s.outcome("isolation-ok");
     };
-    let mut cfg = Cfg::new(Bound::Deviation(cx.pick(1, 2)));
+    let mut cfg = Cfg::new(Bound::Deviation(cx.pick(2, 3)));
     cfg.max_steps = 100_000;
     cfg.wall = Duration::from_secs(cx.pick(20, 600));
     let mut st = Stats::default();
@@ -668,7 +668,7 @@ pub fn run(mut cx: Ctx) -> ! {
             pairs.push(vec![a.clone(), b]);
         }
     }
-    run_seqs(&mut st, "pairs", pairs, false, !quick);
+    run_seqs(&mut st, "pairs", pairs, false, true);
     if !quick {
         let f: Vec<R> = firsts().into_iter().step_by(3).collect();
         let mut triples = vec![];
